@@ -116,6 +116,13 @@ def alphabet(U):
     ops.append(("add_path", lambda net: net.add_path(reading(net, (N[0], L[0], N[1], L[1], N[2]))), ("add_path", "generator reading the lookups 0a1b2")))
     ops.append(("add_path", lambda net: net.add_path(reading(net, (N[1], L[2], N[2]), ("nodes_by_name", "links_by_name", "origins", "destinations")),
                                                      origin=O[0], destination=D[0]), ("add_path", "reading generator 1c2+O0+D0")))
+    # every argument written by keyword
+    ops.append(("add_node", lambda net: net.add_node(node=N[2]), ("add_node", "node=2")))
+    ops.append(("add_nodes", lambda net: net.add_nodes(nodes=[N[0], N[1]]), ("add_nodes", "nodes=(0, 1)")))
+    ops.append(("add_link", lambda net: net.add_link(node_up=N[0], link=L[0], node_down=N[1]), ("add_link", "node_up=0, link=a, node_down=1")))
+    ops.append(("add_links", lambda net: net.add_links(links=[(N[1], L[1], N[2])]), ("add_links", "links=[1b2]")))
+    ops.append(("add_origin", lambda net: net.add_origin(origin=O[0], node=N[0]), ("add_origin", "origin=0, node=0")))
+    ops.append(("add_destination", lambda net: net.add_destination(destination=D[0], node=N[2]), ("add_destination", "destination=0, node=2")))
     for i in range(3):
         ops.append(("add_node", lambda net, i=i: net.add_node(N[i]), ("add_node", i)))
     ops.append(("add_nodes", lambda net: net.add_nodes([N[0], N[2]]), ("add_nodes", (0, 2))))
